@@ -312,7 +312,9 @@ func (c *caseRun) run() {
 			line, obs := p.line, p.result
 			if isOutOfGas(&aers[0]) {
 				o.Count("result:out-of-gas")
-				line += " oog"
+				if p.model {
+					line += " oog"
+				}
 			}
 			if !p.model {
 				obs = "skip"
